@@ -262,12 +262,18 @@ def _run_plan(tasks, streams, plan, obs, tag, case_units=None):
                     # elapsed time: the calculator uses the largest elapsed time seen so far; "elapsed at the emitting sample" is
                     # accepted as well (they differ only under out-of-order arrival)
                     seen = [s for s in delivered[t] if (id(s) not in ss_ids) or s.absolute_time <= at]
-                    intervals = {max(s.absolute_time - start_time[t] for s in seen), at - start_time[t]}
+                    # (operations, elapsed time) have to belong together: everything delivered so far over the largest elapsed time, or
+                    # what was completed up to the emitting sample over the elapsed time at that sample - not the operations of later
+                    # samples over the elapsed time of an earlier one
+                    upto = sum(s.total_ops for s in delivered[t] if s.absolute_time <= at)
+                    intervals = {max(s.absolute_time - start_time[t] for s in seen): total_delivered, at - start_time[t]: upto}
+                    if len(intervals) == 1:
+                        intervals[at - start_time[t]] = total_delivered
                     lower = sum(s.total_ops for s in delivered[t] if s.absolute_time < at)
                     ok = False
-                    for interval in intervals:
+                    for interval, upper in intervals.items():
                         got = r["value"] * interval
-                        if got >= lower * (1 - TOL) - TOL and got <= total_delivered * (1 + TOL) + TOL:
+                        if got >= lower * (1 - TOL) - TOL and got <= upper * (1 + TOL) + TOL:
                             ok = True
                     obs.check(
                         ok,
